@@ -41,14 +41,24 @@ def vc_text(vc, theory=None, fuel=1):
     return s.to_smt2()
 
 
-def run_cli(cmd, text, timeout_s):
+def run_cli(cmd, text, timeout_s, cpu_s=None):
+    """cpu_s: budget in CPU seconds (ulimit -t of the solver process; the solvers are single-threaded, so on an idle machine this is
+    the wall-clock budget); the wall-clock limit is then only a generous safety net, so that a verdict does not depend on how many
+    other checks share the machine."""
     t0 = time.time()
     with tempfile.NamedTemporaryFile('w', suffix='.smt2', delete=False, dir=os.environ.get('PYVC_TMP')) as f:
         f.write(text)
         path = f.name
     try:
-        p = subprocess.run(cmd + [path], capture_output=True, text=True, timeout=timeout_s + 10)
-        out = (p.stdout or '') + (p.stderr or '')
+        if cpu_s is not None:
+            full = ['/bin/sh', '-c', 'ulimit -t %d; exec "$@"' % int(cpu_s), 'sh'] + cmd + [path]
+            p = subprocess.run(full, capture_output=True, text=True, timeout=12 * cpu_s + 60)
+            out = (p.stdout or '') + (p.stderr or '')
+            if p.returncode < 0 or p.returncode in (137, 152, 158) or (not out.strip() and p.returncode != 0):
+                out = 'timeout (cpu limit %ds)' % int(cpu_s)
+        else:
+            p = subprocess.run(cmd + [path], capture_output=True, text=True, timeout=timeout_s + 10)
+            out = (p.stdout or '') + (p.stderr or '')
     except subprocess.TimeoutExpired:
         out = 'timeout'
     finally:
@@ -71,15 +81,15 @@ def solve_one(item):
     t2 = max(2, int(timeout_s * 0.2))
     backends = []
     if Z3_NEW:
-        backends.append(('z3-5.1', [Z3_NEW, '-T:%d' % t1, 'model.completion=true']))
-        backends.append(('z3-5.1/seed1', [Z3_NEW, '-T:%d' % t2, 'smt.random_seed=1', 'sat.random_seed=1']))
-        backends.append(('z3-5.1/seed2/arith2', [Z3_NEW, '-T:%d' % t2, 'smt.random_seed=2', 'smt.arith.solver=2']))
+        backends.append(('z3-5.1', [Z3_NEW, 'model.completion=true'], t1))
+        backends.append(('z3-5.1/seed1', [Z3_NEW, 'smt.random_seed=1', 'sat.random_seed=1'], t2))
+        backends.append(('z3-5.1/seed2/arith2', [Z3_NEW, 'smt.random_seed=2', 'smt.arith.solver=2'], t2))
     if Z3_OLD:
-        backends.append(('z3-4.8.12', [Z3_OLD, '-T:%d' % t1, 'smt.random_seed=7']))
+        backends.append(('z3-4.8.12', [Z3_OLD, 'smt.random_seed=7'], t1))
     res = 'unknown'
     out = ''
-    for name, cmd in backends:
-        r, dt, o = run_cli(cmd, txt, timeout_s)
+    for name, cmd, cpu in backends:
+        r, dt, o = run_cli(cmd, txt, timeout_s, cpu_s=cpu)
         if r.startswith('error') and 'model' in o and 'sat' in o.split('\n')[0]:
             r = 'sat'
         attempts.append((name, r, round(dt, 3)))
@@ -124,7 +134,7 @@ def discharge(vcs, timeout_s=30, jobs=None, want_model=True, progress=None, theo
         # disagreement between solvers (reported as a checker problem), `unknown` is just recorded
         def other(it):
             i, text, _t, _w = it
-            r, dt, _o = run_cli([Z3_OLD, '-T:%d' % max(5, timeout_s // 3), 'smt.random_seed=3'], text, timeout_s)
+            r, dt, _o = run_cli([Z3_OLD, 'smt.random_seed=3'], text, timeout_s, cpu_s=max(5, timeout_s // 3))
             return i, r, dt
         todo = [it for it in items if results[it[0]]['result'] == 'unsat' and not results[it[0]]['attempts'][-1][0].startswith('z3-4')]
         with ThreadPoolExecutor(max_workers=jobs) as ex:
